@@ -111,7 +111,7 @@ CHECKS["C15"] = {
     "technique": "bounded-exhaustive differential enumeration over queries x documents x entry points",
 }
 CHECKS["C16"] = {
-    "text": "Iterator part: 10 queries x 7 sharing configurations (+ one configuration with an environment limit far above the interpreter's on a document nested 3 300 levels) (same compiled query / two compilations / two environments; same, different or equal-under-Python (1 vs true) documents; 2-3 live iterators): ALL interleavings of the first 5 (k=2) / 3 (k=3) next() calls of each iterator (7 / 4 in thorough), each schedule replayed on fresh iterators and compared item by item with the solitary run, plus every single close()/drop point for k=2. Thread part: 18 two-thread harnesses (one with an iterator of the shared environment suspended half-way in the main thread) on shared query/environment objects run on real threads under a cooperative scheduler (sys.settrace line events in package code are scheduling points, one baton, cooperative Lock/RLock): all schedules with <=1 preemption (quick, ~29 000 executions) / <=2 (thorough, capped per harness); each thread must observe its sequential result and the shared objects must be intact afterwards. Compile-only part: two threads compile on one shared environment (same text already compiled; thorough also two texts, a fresh environment, a filter text): ALL schedules with <=2 preemptions at line granularity (56 914 in quick), sliced over 16 shards, and at BYTECODE granularity (a scheduling point before every instruction) with <=1 preemption for the first two harnesses in quick; thorough: <=2 preemptions for the first, <=1 for all four.",
+    "text": "Iterator part: 10 queries x 7 sharing configurations (+ one configuration with an environment limit far above the interpreter's on a document nested 3 300 levels) (same compiled query / two compilations / two environments; same, different or equal-under-Python (1 vs true) documents; 2-3 live iterators): ALL interleavings of the first 5 (k=2) / 3 (k=3) next() calls of each iterator (7 / 4 in thorough), each schedule replayed on fresh iterators and compared item by item with the solitary run, plus every single close()/drop point for k=2. Thread part: 20 two-thread harnesses (one with an iterator of the shared environment suspended half-way in the main thread) on shared query/environment objects run on real threads under a cooperative scheduler (sys.settrace line events in package code are scheduling points, one baton, cooperative Lock/RLock): all schedules with <=1 preemption (quick, ~29 000 executions) / <=2 (thorough, capped per harness); each thread must observe its sequential result and the shared objects must be intact afterwards. Compile-only part: two threads compile on one shared environment (same text already compiled; thorough also two texts, a fresh environment, a filter text): ALL schedules with <=2 preemptions at line granularity (56 914 in quick), sliced over 16 shards, and at BYTECODE granularity (a scheduling point before every instruction) with <=1 preemption for the first two harnesses in quick; thorough: <=2 preemptions for the first, <=1 for all four.",
     "ref": "DESIGN.md section 5, C16",
     "note": "Thread schedules at source-line granularity under the GIL; interleavings inside one line or inside the C regex engine are not covered. Preemption bound completed is reported per harness.",
     "technique": "stateless exploration of schedules of the real code: all next() interleavings; controlled-scheduler thread exploration with iterative preemption bounding",
